@@ -2,7 +2,7 @@
 import json, os, subprocess
 import vlib, engine_common as ec
 
-TB = ["Print Assumptions: C05_core_cancel_sound, C05_core_cancel_no_panic, C05_core_cancel_once, C05_model_cancel_sound, C05_model_cancel_sound_any_task_order, C05_model_cancel_user_step_is_step, C05_model_cancel_side_condition_needed, C05_model_cancel_once, C05_model_side_condition_is_the_induction_premise closed under the global context",
+TB = ["Print Assumptions: C05_core_cancel_sound, C05_core_cancel_no_panic, C05_core_cancel_once, C05_model_cancel_sound, C05_model_cancel_sound_any_task_order, C05_model_cancel_user_step_is_step, C05_model_cancel_side_condition_needed, C05_model_cancel_once, C05_model_cancel_once_all, C05_model_side_condition_is_the_induction_premise closed under the global context",
       "the theorems are about Engine/Core.v with cancelled work modelled as completed sub-requests with arbitrary caller/frame/stack (side condition cstack_ok, satisfied by every stack of a real run, shown necessary)",
       "partial: that dropping a Rust future lands on a publication boundary (guarded sections are re-spawned on drop), that a panic reaches the caller and releases the computing entry, and that no lock is left behind are exercised on the real engine (futures dropped after 0..24 polls with the engine yielding at every query, executor panics on request, commit futures dropped) and judged by the from-scratch oracle and a progress timeout, not proved",
       ] + ec.ENGINE_TB
